@@ -280,7 +280,7 @@ func c12Run[T any](seed uint64, tier string, gen func(r *simrt.Rand) T) (*Episod
 	sim := simrt.New(opts)
 	ep.Res = sim.Run(func() {
 		wd.rootTaskID = simrt.CurID()
-		ad := &simAdapter{root: wd, prio: cw.prio, cfg: QCfg{Kind: kind, NDelay: pick(r, []int{0, 1, 2}), FEnq: fenq}, faultsOn: fenq > 0}
+		ad := &simAdapter{root: wd, prio: cw.prio, cfg: QCfg{Kind: kind, NDelay: pick(r, []int{0, 1, 2}), FEnq: fenq, NSync: kind >= qkDist && r.Chance(20)}, faultsOn: fenq > 0}
 		cw.ad = ad
 		fn := func(j Job[T]) {
 			cw.seen = append(cw.seen, c12Seen{Seq: wd.rec.stamp(), ID: j.ID(), Data: j.Data()})
